@@ -353,7 +353,7 @@ def _r3_as(model: Model, run: Run, neg: FuncInfo, sides: dict[str, str]) -> None
             if isinstance(fx.value, ast.Name):
                 for v, _ in sl.defs.get(fx.value.id, []):
                     txt = norm(v)
-                    if 'FOUR_BYTES_ASN' in txt and any(k in txt for k, s in sides.items() if s == side):
+                    if 'FOUR_BYTES_ASN' in txt and (openname in txt or any(k in txt for k, s in sides.items() if s == side)):
                         from_cap = True
             else:
                 txt = norm(fx.value)
